@@ -1,6 +1,6 @@
 // C17 — parsing time does not blow up with nesting or length.
 //
-// Input families are built from 31 "wrappers" (a prefix and a suffix around a hole, with the
+// Input families are built from 41 "wrappers" (a prefix and a suffix around a hole, with the
 // precedence level they need and produce); a family of period 1 or 2 nests n wrappers around an atom
 // (parentheses are inserted where the grammar requires them). Every family is run well formed,
 // truncated and with a wrong token planted, on a ladder of sizes; the work measure is the number of
@@ -55,6 +55,17 @@ fn wrappers() -> Vec<Wrapper> {
         w("sum-grouped-grouped-last", "x + ( x ) + (", ")", 0, 3),
         w("product-grouped-then-grouped", "x * (", ") * ( x )", 0, 5),
         w("product-grouped-grouped-last", "x * ( x ) * (", ")", 0, 5),
+        // a parenthesised operand in the middle of a chain, for every pair of operators around it
+        w("middle-plus-plus", "x + (", ") + x", 0, 3),
+        w("middle-plus-minus", "x + (", ") - x", 0, 3),
+        w("middle-minus-plus", "x - (", ") + x", 0, 3),
+        w("middle-minus-minus", "x - (", ") - x", 0, 3),
+        w("middle-times-times", "x * (", ") * x", 0, 5),
+        w("middle-times-over", "x * (", ") / x", 0, 5),
+        w("middle-over-times", "x / (", ") * x", 0, 5),
+        w("middle-over-over", "x / (", ") / x", 0, 5),
+        w("middle-plus-times", "x + (", ") * x", 0, 3),
+        w("middle-application", "f (", ") x", 0, 6),
         // groups of several members whose body is a parenthesised group of its own, and groups nested
         // through a definition (values and computed definitions)
         w("group-of-two-grouped-body", "@ = 1 ; @x = 2 ; (", ")", 0, 0),
@@ -475,7 +486,7 @@ impl Prop for C17 {
     fn evidence(&self, tier: Tier) -> EvidenceSpec {
         EvidenceSpec {
             level: "exploration",
-            rule: "all input families of period 1 and 2 over 31 syntactic wrappers (parentheses, sums left/right, differences, negation, products, application left/right, comparison, let / annotated let / let nested in a definition, if nested in the else / then / condition position, the four lambda forms and the annotation position, pi, arrows left/right, application / sum / product chains ending in two parenthesised operands nested through either of them, and groups of two and three members whose body is a parenthesised group of its own or whose first definition is one), i.e. 31 + 930 families, each in 8 variants (well formed; suffix dropped; last 1, 2, 3 tokens dropped; a wrong token planted at 1/4, 1/2, 3/4), on the ladder n = 1, 2, 4, .., 512 (quick) / 4096 (thorough); the real tokenize+parse is run on a 2 GiB stack and its heap allocations counted; every rung must finish within the cap (CPU time of the parsing thread, so machine load does not matter), every rung must satisfy allocations <= 40 tokens^2 + 200000 (measured on the unchanged tree: <= 2 tokens^2), and well-formed variants must satisfy work(2n) <= 6 work(n) from n >= 64 (measured: 2.00). Second sweep, long definition sequences as reference graphs: groups of n = 1, 2, 4, .., 256 (quick) / 1024 (thorough) definitions where definition i mentions d(i+o) for every o of an offset set, for all 31 non-empty offset sets within {-2,-1,+1,+2,+3}, three kind patterns (all lambdas; a non-value head then lambdas; all non-values), body d0 or the last definition, three variants (complete, last token dropped, wrong token in the middle) — 558 families x variants under the same time cap and envelope (measured: <= 0.7 tokens^2). Third sweep, 14 lexical families (one long identifier, literal, comment, run of blanks / tabs / line breaks / CRLF / comment lines, one definition per line, stray symbols, operators without operands) to 4096 / 65536 repetitions (1024 / 4096 where every diagnostic quotes the line), with characters in the place of tokens. evaluations = families x variants; non-trivial = those whose whole ladder was measured".to_owned(),
+            rule: "all input families of period 1 and 2 over 41 syntactic wrappers (parentheses, sums left/right, differences, negation, products, application left/right, comparison, let / annotated let / let nested in a definition, if nested in the else / then / condition position, the four lambda forms and the annotation position, pi, arrows left/right, application / sum / product chains ending in two parenthesised operands nested through either of them, a parenthesised operand in the middle of a chain for ten pairs of operators around it, and groups of two and three members whose body is a parenthesised group of its own or whose first definition is one), i.e. 41 + 1640 families, each in 8 variants (well formed; suffix dropped; last 1, 2, 3 tokens dropped; a wrong token planted at 1/4, 1/2, 3/4), on the ladder n = 1, 2, 4, .., 512 (quick) / 4096 (thorough); the real tokenize+parse is run on a 2 GiB stack and its heap allocations counted; every rung must finish within the cap (CPU time of the parsing thread, so machine load does not matter), every rung must satisfy allocations <= 40 tokens^2 + 200000 (measured on the unchanged tree: <= 2 tokens^2), and well-formed variants must satisfy work(2n) <= 6 work(n) from n >= 64 (measured: 2.00). Second sweep, long definition sequences as reference graphs: groups of n = 1, 2, 4, .., 256 (quick) / 1024 (thorough) definitions where definition i mentions d(i+o) for every o of an offset set, for all 31 non-empty offset sets within {-2,-1,+1,+2,+3}, three kind patterns (all lambdas; a non-value head then lambdas; all non-values), body d0 or the last definition, three variants (complete, last token dropped, wrong token in the middle) — 558 families x variants under the same time cap and envelope (measured: <= 0.7 tokens^2). Third sweep, 14 lexical families (one long identifier, literal, comment, run of blanks / tabs / line breaks / CRLF / comment lines, one definition per line, stray symbols, operators without operands) to 4096 / 65536 repetitions (1024 / 4096 where every diagnostic quotes the line), with characters in the place of tokens. evaluations = families x variants; non-trivial = those whose whole ladder was measured".to_owned(),
             assumptions: vec![
                 "a growth law on a finite ladder is evidence of the law, not a proof for all n".to_owned(),
                 "heap allocations are proportional to parse-function executions (every constructed term, cache insert and error closure allocates)".to_owned(),
